@@ -558,6 +558,9 @@ def units(tier, seed):
     for n in ([6] if tier == "quick" else [6, 12]):
         for fi in range(len(family_sets(n))):
             us.append({"kind": "vor-family", "n": n, "set": fi, "geom": fi % len(gl), "tier": tier})
+    for gi in range(len(gl)):
+        for m in ([2, 3] if tier == "quick" else ms(tier)):
+            us.append({"kind": "combined", "m": m, "geom": gi})
     # points far away from the catchment (hundreds of cells): "anywhere" in the quantifier
     for si in range(len(SCAN_SETS3)):
         for gi in range(len(gl)):
@@ -689,6 +692,30 @@ def run_unit(unit, ctx):
     _, cf, (fx, fy), dyadic = geom
     kind = unit["kind"]
     first = [False]
+    if kind == "combined":
+        # catchments obtained with + and - from two others (the left operand has been intersected before,
+        # so anything it memoised must not leak into the combination)
+        m = unit["m"]
+        configs = [(m, d, rx, ry) for d in DIMS3 for rx in offsets_small(m) for ry in offsets_small(m)]
+        for ai, a in enumerate(SCAN_SETS3):
+            for bi, b in enumerate(SCAN_SETS3):
+                if ai == bi:
+                    continue
+                fa, fb = fill_holes(a, 3, 3), fill_holes(b, 3, 3)
+                ca = make_catchment(3, 3, cf, fx, fy, a, fa)
+                cb = make_catchment(3, 3, cf, fx, fy, b, fb)
+                try:
+                    ca.intersect(make_coarse(cf, m, 2, 3, fx, fy))
+                except Exception:
+                    pass
+                for opname, comb, cells in (("add", ca + cb, sorted(set(fa) | set(fb))),
+                                            ("sub", ca - cb, sorted(set(fa) - set(fb)))):
+                    if not cells:
+                        continue
+                    ctx.count("intersect.combined_catchments")
+                    run_intersect_configs(ctx, comb, cells, cells, (3, 3), geom, gi, configs, "intersect-combined",
+                                          [False], extra={"op": opname, "a": a, "fa": fa, "b": b, "fb": fb}, first=first)
+        return
     if kind == "sets3":
         m = unit["m"]
         for k in range(unit["block"] * 16, unit["block"] * 16 + 16):
@@ -883,7 +910,16 @@ def replay(case):
         catch = make_catchment(fine[0], fine[1], cf, fx, fy, case["cells"], case["cells"])
         check_voronoi(ctx, catch, case["cells"], fine, geom, [tuple(p) for p in case["pts"]], case)
     else:
-        if case["kind"] == "intersect-delin":
+        if case["kind"] == "intersect-combined":
+            ca = make_catchment(fine[0], fine[1], cf, fx, fy, case["a"], case["fa"])
+            cb = make_catchment(fine[0], fine[1], cf, fx, fy, case["b"], case["fb"])
+            try:
+                ca.intersect(make_coarse(cf, case["m"], 2, 3, fx, fy))
+            except Exception:
+                pass
+            catch = (ca + cb) if case["op"] == "add" else (ca - cb)
+            area = filledc = case["cells"]
+        elif case["kind"] == "intersect-delin":
             catch = delin_catchment(case["n"], cf, fx, fy, tuple(case["sink"]),
                                     None if case["pit"] is None else tuple(case["pit"]), case["outlet"])
             area = [int(c) for c in catch.idxcells_area]
